@@ -21,23 +21,26 @@ RULE = ("months chosen so that all 28 month shapes (length 28..31 x weekday of t
         "with zoneinfo arithmetic; model budget: two of three year-unit nth_of zone cases of the quick tier (seven of eight, three of four quarter-unit, every other "
         "month-unit nth_of and next/previous case in the thorough tier) are oracle-only; "
         "`firstweekday`: process-wide configuration set before the call -- calendar.setfirstweekday(0..6) x Date/DateTime x first_of/last_of "
-        "(3 units, None + 7 weekdays) x nth_of (n = 1, 2), the setting is an argument of the case (self-contained replay) and is modelled "
-        "(fw_* functions; the configured calendar.monthcalendar itself is validated against calendar.Calendar(fw)); every result must be a "
+        "(3 units, None + 7 weekdays) x nth_of (n = 1, 2), the setting is an argument of the case (self-contained replay) and an argument of "
+        "the model (fw_* functions, proved not to depend on it); under EVERY setting the answer must be the one of plain date arithmetic "
+        "(region of the repaired finding calendar-firstweekday; its former witnesses, 2024-05-17 under each setting, come first and are "
+        "deterministic); the model of calendar.Calendar(fw) is validated against the stdlib; every result must be a "
         "pendulum Date (not a datetime) / a pendulum DateTime; n <= 0 and invalid weekdays as robustness streams; the `nth-max-year` stream is deterministic: year 9999, "
         "the occurrences whose place would lie after 9999-12-31 (n just inside / just beyond the month, quarter, year, and n = 100, 400), "
         "Date and DateTime -- the region of the repaired finding nth-of-overflow-at-max-year.  A case is non-trivial when it is a distinct "
         "(function, arguments) tuple; each composite case carries 16..378 calls of the public API, every one compared with the Coq model "
         "(both backends) and with datetime.date arithmetic.")
 EXHAUSTIVE = {"quick": False, "thorough": False}
-TRUSTED = ["CPython datetime.date / calendar.monthcalendar / zoneinfo are the specification side; Spec/Cal.v and the monthcalendar model mc_get "
-           "are validated against them by the `cal-spec` stream every run",
+TRUSTED = ["CPython datetime.date / calendar.Calendar(fw).monthdayscalendar / zoneinfo are the specification side; Spec/Cal.v and the calendar "
+           "models mc_get (Calendar(MONDAY), what the month helpers read) and mc_get_fw (every fw) are validated against them by the `cal-spec` "
+           "stream and the mcfw cases of the `firstweekday` stream every run",
            "DateTime in naive/UTC/fixed-offset zones is modelled by hand (zone = opaque identifier carried along, create() attaches it unchanged); "
            "DateTime in tz-database zones is modelled by Model/WeekdayZone.v over the zone table that tools/vlib/zones.py reads through the "
            "pure-Python zoneinfo (window: December of the year before the instance .. January of the year after), create() = "
            "Timezone.convert as modelled in Model/TzConvert.v (shared with C02/C04)"]
 ASSUMPTIONS = ["dt.format('YYYY-MM') / dt.format('%Y-%M') string equality is equality of (year, month): validated by the `format-check` stream every run",
-               "all streams but `firstweekday` run under the default calendar.firstweekday() (Monday); that stream sets every other value, "
-               "checks that pendulum leaves the setting alone, and restores it"]
+               "all streams but `firstweekday` run under the default calendar.firstweekday() (Monday); that stream sets every value 0..6, "
+               "requires the same answers under each, checks that pendulum leaves the setting alone, and restores it"]
 VM_SUBSET = 120
 
 MAXORD = 3652059
@@ -214,8 +217,14 @@ def cases(tier, seed):
 def _firstweekday_cases(tier, rnd, dates, edges, zc):
     """Process-wide configuration set BEFORE the call: every value of calendar.setfirstweekday (0 = the default .. 6 = Sunday,
     the usual US setting) x Date and DateTime instances (random month shapes, range edges) x first_of/last_of (3 units, None + 7
-    weekdays) and nth_of (3 units, 7 weekdays, n = 1, 2).  The setting is part of the case, so a replay is self-contained."""
+    weekdays) and nth_of (3 units, 7 weekdays, n = 1, 2).  The setting is part of the case, so a replay is self-contained.
+    Formerly finding calendar-firstweekday (the month helpers read calendar.monthcalendar and answered for weekday
+    (wd + fw) mod 7); its witnesses -- 2024-05-17, Date and DateTime, under every setting -- come first, every run.  Ordinary
+    cases: the model, the oracle and the implementation must agree on the same day under every setting."""
     out = []
+    for fw in (6, 1, 2, 3, 4, 5, 0):
+        out.append({"stream": "firstweekday", "fn": "fw", "args": [fw, 0, 2024, 5, 17, 0, 0]})
+        out.append({"stream": "firstweekday", "fn": "fw", "args": [fw, 1, 2024, 5, 17, 34200000000, 1 if fw % 2 else 100000 - 18000]})
     k = 10 if tier == "thorough" else 3
     seen = set()
     for fw in range(7):
@@ -691,7 +700,7 @@ def model_result(c, backend, outs):
     fn, a = c["fn"], c["args"]
     if fn == "mc":
         y, m = a
-        mc = calendar.monthcalendar(y, m)
+        mc = calendar.Calendar(calendar.MONDAY).monthdayscalendar(y, m)     # what the month helpers read
         if outs[0] != [0, len(mc)]:
             return [7, "rows", outs[0]]
         k = 1
@@ -927,9 +936,11 @@ def _judge(c, backend, r):
         if op == 4 and n <= 0 and got[0] == 0 and got[1:4] == [_unit_bounds(u, inst)[0].year, _unit_bounds(u, inst)[0].month, 1]:
             fid = "nth-of-nonpositive-returns-first-day"
         if fw != 0 and wd is not None and (op in (2, 3) or (op == 4 and n == 1)):
-            # calendar.setfirstweekday(fw) is in force: the month helpers index calendar.monthcalendar's rows (laid out from
-            # weekday fw) with the requested weekday and so answer for weekday (wd + fw) mod 7 -- exactly that answer, at
-            # 00:00 in the same zone, is the listed finding; anything else is not
+            # (finding now FIXED: classifying it here makes a regression show up under its id, and the runner reports a
+            # reproduced fixed finding as a VIOLATION)  calendar.setfirstweekday(fw) is in force: the month helpers used to
+            # index calendar.monthcalendar's rows (laid out from weekday fw) with the requested weekday and so answered for
+            # weekday (wd + fw) mod 7 -- exactly that answer, at 00:00 in the same zone, is the listed finding; anything else
+            # is not
             if _check_sub(_expect(op, u, n, (wd + fw) % 7, inst), got, 0 if is_dt else None, z) is None:
                 fid = "calendar-firstweekday"
         if fid is None:
@@ -1040,16 +1051,24 @@ LEVEL_TEXT = ("Machine-checked Coq theorems about an executable model of Date/Da
               "with skipped midnights.  DateTime in tz-database zones has its own model (every instance goes through Timezone.convert): proved "
               "equal to the Date functions at 00:00 / the kept time in every zone that skips neither midnight nor the instance's time of day "
               "(all fixed offsets), nth_of never hands out the walked instance (its answer went through start_of('day') last), refuted with "
-              "witnesses on the America/Sao_Paulo table where a midnight is skipped (finding skipped-midnight-day).  The month helpers under "
-              "calendar.setfirstweekday(fw) are modelled and proved to answer for weekday (wd + fw) mod 7: right for fw = 0 only "
-              "(finding calendar-firstweekday, refuted + partial theorems).")
+              "witnesses on the America/Sao_Paulo table where a midnight is skipped (finding skipped-midnight-day).  The calls under a "
+              "process-wide calendar.setfirstweekday(fw) are modelled with fw as an argument and proved to be the Date functions for EVERY "
+              "fw, so first_of/last_of/nth_of return the least/greatest/n-th day on the requested weekday under every configuration (the "
+              "calendar.monthcalendar defect, finding calendar-firstweekday, is repaired: the helpers build calendar.Calendar(MONDAY); a "
+              "regression is reported as a violation).")
 DESIGN_REF = "DESIGN.md section 4 C16"
 LEVEL_NOTE = ("Trusted: Coq kernel+VM, the hand model Model/Weekday.v (tied by correspondence every run, both backends; next/previous also by the translation "
               "Gen/WeekdayNav.v = model, Proofs/C16Gen.v), Spec/Cal.v as a model of "
               "CPython's datetime/calendar (validated every run), extraction+driver (cross-checked with vm_compute). DateTime in tz-database zones: "
               "Model/WeekdayZone.v (z_* functions, inside the model; tied by the zone-* streams, both backends; the known() region of finding "
               "skipped-midnight-day is now also bounded by the model: a result that differs from the model of the defect is a violation). "
-              "calendar.setfirstweekday: inside the model (fw_* functions, stream firstweekday). Oracle-only: two of three year-unit nth_of zone "
+              "calendar.setfirstweekday: inside the model (fw_* functions, stream firstweekday, every setting 0..6 in both backends; the model of "
+              "calendar.Calendar(fw) that they read at fw = MONDAY is validated against the stdlib for every fw). Finding calendar-firstweekday is fixed "
+              "(the month helpers read calendar.Calendar(calendar.MONDAY).monthdayscalendar instead of calendar.monthcalendar): its former "
+              "first_of_under_firstweekday / *_refuted / *_default_firstweekday_partial theorems are replaced by first_of_under_any_firstweekday, "
+              "last_of_under_any_firstweekday, nth_of_under_any_firstweekday, first_of_spec_under_any_firstweekday, "
+              "last_of_spec_under_any_firstweekday; the former witnesses (2024-05-17 under every setting) are deterministic cases of the "
+              "firstweekday stream. Oracle-only: two of three year-unit nth_of zone "
               "cases of the quick tier (model budget; thorough: seven of eight year-unit, three of four quarter-unit, one of two month-unit nth_of and next/previous). Finding nth-of-overflow-at-max-year is fixed (nth_of catches the "
               "OverflowError of the stepping loop): its former _refuted/_partial theorems are replaced by nth_of_raises_pendulum_exception, "
               "nth_of_raises_nothing_else, nth_of_returns_nth_or_raises; the deterministic nth-max-year stream keeps the region exercised.")
